@@ -46,6 +46,12 @@ CLAIMED["C13"] = dict(
     technique="CBMC function contracts (dfcc) on extracted C for all three template copies, lemma harnesses with ghost points/boxes, cvc5",
     ref="6/C13")
 
+CLAIMED["C02"] = dict(
+    text="Proof: the same two contracts (RNE spec / binary16 value spec) are enforced on imath_float_to_half under every configuration of the plain-C inclusion (generated default config, no-table, table forced), on imath_half_to_float in the bit-shift build and in the table build (with the 65536 table-entry obligations on the shipped toFloat.h), on both functions and on half(float)/operator float() as compiled through the C++ inclusion (extracted at -std=c++17; the emitted C is checked textually identical at c++14/17/20), and on the table generator's halfToFloat() cut from toFloat.cpp; equal contracts for all inputs give bit-identical results across back ends, and table == generator output.",
+    note="Trusted: cbmc 6.11 SAT, clang AST + cxx2c for the C++ inclusion. F16C: no CBMC model of the intrinsics; the thorough tier runs an exhaustive native stand-in, labelled bounded and never counted. The generator's printing (iostream) is not covered. Static supporting facts: the table pointer is assigned only at its definition; emitted C identical across language modes.",
+    technique="CBMC function contracts (dfcc) on directly included C under each configuration, and on extracted C for the C++ inclusion; SAT, full input domains",
+    ref="6/C02")
+
 NA = {
 }
 
